@@ -39,8 +39,8 @@ def campaign(tier, seed):
             raise ToolError("harness failed: " + out[-2000:])
         hstat = json.loads(out.strip().splitlines()[-1])
         tv_out = st.path("tv.out")
-        tv = run_tlc("IterTrace", os.path.join(SPEC, "IterTrace.cfg"), tv_out, workers=8,
-                     env={"TRACE": trace}, timeout=6000)
+        tv = run_tlc_trace("IterTrace", os.path.join(SPEC, "IterTrace.cfg"), trace, tv_out, workers=3,
+                           chunk=30000, par=5, timeout=6000)
         if not tv["ok"]:
             raise ToolError("IterTrace did not complete: %s" % tv["error"])
         seen, recs = set(), []
